@@ -250,6 +250,8 @@ class Histogram1D(ObjectWithBinning, HistogramBase):
                     f"Too many indices ({len(index)}) to select from 1D histogram"
                 )
             return self[index[0]]
+        if isinstance(index, np.integer):
+            index = int(index)  # (e.g. from np.argmax(h.frequencies))
         if isinstance(index, int):
             return self.bins[index], self.frequencies[index]
         if not isinstance(index, (slice, str)) and np.ndim(index) == 1:
